@@ -395,8 +395,14 @@ impl EncodingVersion for EncodingVersion2 {
                 3 => 8,
                 4 => deserializer.deserialize_primitive_type::<u32>()?,
                 5 => deserializer.deserialize_primitive_type::<u32>()?,
-                6 => 4 * deserializer.deserialize_primitive_type::<u32>()?,
-                7 => 8 * deserializer.deserialize_primitive_type::<u32>()?,
+                6 => deserializer
+                    .deserialize_primitive_type::<u32>()?
+                    .checked_mul(4)
+                    .ok_or(XTypesError::InvalidData)?,
+                7 => deserializer
+                    .deserialize_primitive_type::<u32>()?
+                    .checked_mul(8)
+                    .ok_or(XTypesError::InvalidData)?,
                 _ => unimplemented!("LC not possible"),
             };
 
